@@ -11,6 +11,12 @@ written:
 For each event the path condition must imply the necessary condition of C04 / C08 in terms of the *path the event is about*:
 not excluded(path) [and (is_dir(path) or suffix(path) == ".py")], where `excluded` is the public predicate `is_excluded` of the
 filter object and is applied to the path itself (or its resolved / absolute / str form), never to a part of it.
+
+A walk delegated to `os.walk` is decided on a model of that function (see `Walk` below): which directories the library visits
+follows from the start path and from what the loop body leaves in the list of sub-directory names; registration / reading events
+about the visited directory and about its files are then judged as above with the facts the model provides.  Not decided there:
+that a start path which is a *file* is parsed at all (os.walk yields nothing for it), walks that are materialised before the loop
+(`sorted(os.walk(..))`) unless they skip by character prefix, bottom-up walks, `os.fwalk` / `glob` / `rglob`.
 """
 
 from __future__ import annotations
@@ -443,6 +449,7 @@ class Walk:
     cleared: list = field(default_factory=list)  # events that empty the sub-directory list
     keeps: list = field(default_factory=list)  # (event, formula, name term): a name stays in the list only if the formula holds
     invariant: "bool | None" = False  # every visited directory is known not to be excluded (None: cannot tell)
+    trace_events: list = field(default_factory=list)
 
 
 def _conjuncts(f: Formula) -> list:
@@ -529,6 +536,7 @@ def walk_model(info: ScanInfo, e: Event) -> Walk | None:
     item = ("elem", loop.iter, loop.id)
     w = Walk(e, top, loop, item, materialised=loop.iter != e.result and not (loop.iter[0] == "call" and loop.iter[1] == ("builtin", "iter")))
     w.directory, w.subdirs, w.files = (("idx", item, ("const", i)) for i in range(3))
+    w.trace_events = info.trace.events
     topdown = next((v for k, v in e.kwargs if k == "topdown"), e.args[1] if len(e.args) > 1 else None)
     if topdown is not None and topdown != ("const", True):
         w.problems.append(f"the walk is bottom-up (`topdown={show(topdown, 30)}`): the sub-directories have been visited before their parent is seen")
@@ -748,8 +756,17 @@ def _walk_context(sx: SymX, walk: "Walk | None", e: Event, known: Formula, path:
     """(condition, facts, accepted atoms) for an event inside the loop over an os.walk scan: the condition without what was tested
     before the walk started (judged as 'walk started'), what the model knows about the path the event is about, and the atoms about
     the visited directory in the condition of an event about one of its files (judged as 'files handed on')."""
-    if walk is None or path is None or not any(l.id == walk.loop.id for l in e.loops):
+    if walk is None or path is None:
         return known, TRUE, set()
+    if not any(l.id == walk.loop.id for l in e.loops):
+        # a second pass over the directories that the walk collected: what held when a directory was put into the collection
+        g = _collected_directories(sx, walk, path)
+        if g is None and _collects_files(walk, path):
+            # a second pass over the files that the walk collected (their hand-over is judged as 'files handed on')
+            return _relative(_conjuncts(known), walk.event.pc), TRUE, set()
+        if g is None:
+            return known, TRUE, set()
+        return _relative(_conjuncts(known), walk.event.pc), f_and([atom("ISDIR"), f_not(atom("EXCL")) if walk.invariant else TRUE, g]), set()
     rel = _relative(_conjuncts(known), walk.event.pc)
     target = strip_abs(loc(path))
     if target == strip_abs(loc(walk.directory)):
@@ -758,7 +775,85 @@ def _walk_context(sx: SymX, walk: "Walk | None", e: Event, known: Formula, path:
     if ch is not None and ch[0] == strip_abs(loc(walk.directory)) and ch[1][0] == "elem" and _is_copy_of(ch[1][1], walk.files) is not None:
         _g, unknown = _walk_atoms(sx, rel, walk.directory)
         return rel, f_not(atom("ISDIR")), {k for k in atoms_of(rel) if k not in unknown}
+    if ch is not None and ch[0] == strip_abs(loc(walk.directory)) and ch[1][0] == "elem" and _is_copy_of(ch[1][1], walk.subdirs) is not None:
+        # a sub-directory handled at its parent (the names the library lists as sub-directories are directories); when the list
+        # has been pruned before, what is still in it has passed the pruning
+        _g, unknown = _walk_atoms(sx, rel, walk.directory)
+        facts = [atom("ISDIR")]
+        order = {id(ev): i for i, ev in enumerate(walk.trace_events)}
+        for ev, g0, name in walk.keeps:
+            if order.get(id(ev), 1 << 30) < order.get(id(e), -1) and not any(l.id == name[2] for l in e.loops if name[0] == "elem"):
+                g, _u = _walk_atoms(sx, g0, walk.directory, name)
+                facts.append(rename_atoms(g, lambda k: atom("EXCL") if k == "C.EXCL" else atom("ISDIR") if k == "C.ISDIR" else atom("<the visited directory is excluded>") if k == "EXCL" else TRUE if k == "ISDIR" else None))
+        return rel, f_and(facts), {k for k in atoms_of(rel) if k not in unknown} | {"<the visited directory is excluded>"}
     return known, TRUE, set()
+
+
+def _collected_directories(sx: SymX, walk: Walk, path: Term) -> "Formula | None":
+    """If `path` is an element of a list / set that is filled with nothing but the directory visited by the walk (one `append` /
+    `add` per iteration): the condition of that append, over the atoms of the element itself; None otherwise."""
+    if path[0] != "elem" or walk.invariant is None:
+        return None
+    src = _unwrap_iterable(path[1])
+    if src[0] != "box":
+        return None
+    d = strip_abs(loc(walk.directory))
+    guards = []
+    init = sx.box_init.get(src[1], src[3])
+    if not (init[0] in ("list", "set", "tuple") and not init[1] or init[0] == "call" and not init[2]):
+        return None
+    for ev in walk.trace_events:
+        if ev.kind in ("mut", "setitem", "delitem") and ev.recv is not None and ev.recv[0] == "box" and ev.recv[1] == src[1]:
+            if ev.kind != "mut" or ev.name not in ("append", "add") or len(ev.args) != 1 or strip_abs(loc(ev.args[0])) != d or not any(l.id == walk.loop.id for l in ev.loops):
+                return None
+            if any(l.id != walk.loop.id and l not in walk.event.loops for l in ev.loops):
+                return None
+            g, unknown = _walk_atoms(sx, _relative(ev.pc, walk.event.pc), walk.directory)
+            if unknown:
+                return None
+            guards.append(g)
+    return f_or(guards) if guards else None
+
+
+def _collects_files(walk: Walk, path: Term) -> bool:
+    """`path` is an element of a collection to which the loop over the walk adds the paths of the files of the visited directory
+    (and nothing else)."""
+    boxes = {x[1] for x in subterms(path[1]) if x[0] == "box"} if path[0] == "elem" else set()
+    d = strip_abs(loc(walk.directory))
+    found = False
+    for ev in walk.trace_events:
+        if ev.kind != "mut" or ev.recv is None or ev.recv[0] != "box" or ev.recv[1] not in boxes or not any(l.id == walk.loop.id for l in ev.loops):
+            continue
+        if ev.name not in ("append", "add", "extend", "update") or len(ev.args) != 1:
+            return False
+        a = unbox(ev.args[0])
+        el = a[2] if a[0] == "comp" and len(a[3]) == 1 else a
+        ch = _child_of(el)
+        if ch is None or ch[0] != d or ch[1][0] != "elem" or _is_copy_of(ch[1][1], walk.files) is None:
+            return False
+        found = True
+    return found
+
+
+def _holds_walked_directories(info: ScanInfo, walk: "Walk | None", path: "Term | None") -> bool:
+    """The path is an element of a container that the loop over the walk fills with the visited directories (or their
+    sub-directories): a second pass over what the walk collected, whose conditions this rule does not carry over."""
+    if walk is None or path is None:
+        return False
+    boxes = {x[1] for x in subterms(path) if x[0] == "box"}
+    if not boxes:
+        return False
+    d = strip_abs(loc(walk.directory))
+    for ev in info.trace.events:
+        if ev.kind != "mut" or ev.recv is None or ev.recv[0] != "box" or ev.recv[1] not in boxes or not any(l.id == walk.loop.id for l in ev.loops):
+            continue
+        for a in ev.args:
+            for x in subterms(a):
+                if strip_abs(loc(x)) == d:
+                    inside_file = any((c := _child_of(y)) is not None and c[1][0] == "elem" and _is_copy_of(c[1][1], walk.files) is not None and x in subterms(y) for y in subterms(a))
+                    if not inside_file:
+                        return True
+    return False
 
 
 def run_registration(repo: Repo, res: Result, rule: str) -> int:
@@ -825,6 +920,9 @@ def run_registration(repo: Repo, res: Result, rule: str) -> int:
             continue
         elsewhere = _exclusion_tests_elsewhere(info, reg.path)
         in_walk = walk is not None and any(l.id == walk.loop.id for l in e.loops)
+        if not ok and not in_walk and _holds_walked_directories(info, walk, reg.path):
+            res.undecide(rule, key + f" [{kind} registered]", "the registered path comes out of a collection that the loop over `os.walk` fills with directories: cannot carry the conditions of the walk over to this second pass", wh)
+            continue
         if in_walk and not ok and walk.invariant is None and strip_abs(loc(reg.path)) == strip_abs(loc(walk.directory)):
             res.undecide(rule, key + f" [{kind} registered]", "cannot tell whether every directory that `os.walk` visits has passed the exclusion test (see the walk)", wh)
             continue
